@@ -86,6 +86,7 @@ type Vote struct { // ViewChangeMessageContent
 	HdrRaw []byte
 	Sender Sig
 	Raw    []byte
+	keepRaw bool
 }
 
 // Msg is a fully decoded wire message.
